@@ -1,3 +1,140 @@
 import TlsModel.Proto
-/- driver stub for C03: replaced when the model exists -/
-def main : IO Unit := Tls.protoMain (fun _ => none)
+import TlsModel.Negotiate
+/-
+  Driver for C03.
+    neg <clientSettings> <serverSettings> <clientCfg> <serverCfg>   -> outcome line
+    offer <clientSettings> <clientCfg>                              -> the modelled ClientHello
+    views <clientSettings> <serverSettings> <clientCfg> <serverCfg> -> clientView / serverView fields
+    filter <settings> <minor> <suite,suite,...>                     -> _filterSuites output
+    sigs <settings> <privBits|-> <cred|-> <minor>                   -> _sigHashesToList output
+  Settings: 24 fields separated by ';', lists separated by ',', '-' = empty list / empty string:
+    minV;maxV;versions;cipherNames;macNames;keyExchangeNames;eccCurves;dhGroups;keyShares;defaultCurve;
+    rsaSigHashes;rsaSchemes;ecdsaSigHashes;dsaSigHashes;more_sig_schemes;minKeySize;maxKeySize;
+    useEtM;useEMS;requireEMS;record_size_limit(0=None);dhParamBits(0=None);psk(id:hash,..);psk_modes
+  cred: certAlg:bits:curve   clientCfg: flavour;cred;alpn;serverName
+  serverCfg: hasDB;srpBits;cred;anon;reqCert;alpn;sni
+  Outcome:  ok v=.. suite=.. group=.. dh=.. sig=.. etm=.. ems=.. alpn=.. sni=.. cs=.. cr=.. ss=.. sr=..
+               scert=.. ccert=.. csig=.. psk=.. hrr=..
+            alert <side> <description>     abort <side> <exception>
+-/
+open Tls Tls.Neg
+
+def lst (s : String) : List String := if s == "-" then [] else s.splitOn ","
+def str (s : String) : String := if s == "-" then "" else s
+def natList (s : String) : Option (List Nat) := (lst s).mapM (·.toNat?)
+def bool? (s : String) : Option Bool := if s == "1" then some true else if s == "0" then some false else none
+
+def parsePsk (s : String) : Option (List (String × String)) :=
+  (lst s).mapM fun e => match e.splitOn ":" with
+    | [i, h] => some (str i, str h)
+    | _ => none
+
+def parseSettings (s : String) : Option Settings :=
+  match s.splitOn ";" with
+  | [minV, maxV, vers, ciph, mac, kex, curves, dhg, shares, defc, rsah, rsas, ech, dsah, more, mink, maxk,
+     etm, ems, rems, rsl, dhb, psk, pskm] => do
+    let st : Settings := {
+      minVersion := ← minV.toNat?, maxVersion := ← maxV.toNat?, versions := ← natList vers
+      cipherNames := lst ciph, macNames := lst mac, keyExchangeNames := lst kex
+      eccCurves := lst curves, dhGroups := lst dhg, keyShares := lst shares, defaultCurve := str defc
+      rsaSigHashes := lst rsah, rsaSchemes := lst rsas, ecdsaSigHashes := lst ech, dsaSigHashes := lst dsah
+      moreSigSchemes := lst more, minKeySize := ← mink.toNat?, maxKeySize := ← maxk.toNat?
+      useEtM := ← bool? etm, useEMS := ← bool? ems, requireEMS := ← bool? rems
+      recordSizeLimit := ← rsl.toNat?, dhParamBits := ← dhb.toNat?
+      pskConfigs := ← parsePsk psk, pskModes := lst pskm }
+    if st.namesKnown then some st else none
+  | _ => none
+
+def parseCred (s : String) : Option (Option Cred) :=
+  if s == "-" then some none else
+  match s.splitOn ":" with
+  | [a, b, c] => do some (some { certAlg := a, keyBits := ← b.toNat?, curve := str c })
+  | _ => none
+
+def parseClientCfg (s : String) : Option ClientCfg :=
+  match s.splitOn ";" with
+  | [fl, cred, alpn, sni] => do
+    let f ← (match fl with | "cert" => some ClientFlavour.cert | "srp" => some .srp | "anon" => some .anon | _ => none)
+    some { flavour := f, cred := ← parseCred cred, alpn := lst alpn, serverName := str sni }
+  | _ => none
+
+def parseServerCfg (s : String) : Option ServerCfg :=
+  match s.splitOn ";" with
+  | [db, bits, cred, anon, req, alpn, sni] => do
+    some { hasDB := ← bool? db, srpBits := ← bits.toNat?, cred := ← parseCred cred, anon := ← bool? anon
+           reqCert := ← bool? req, alpn := lst alpn, sni := str sni }
+  | _ => none
+
+def b01 (b : Bool) : String := if b then "1" else "0"
+def dash (s : String) : String := if s == "" then "-" else s
+def natsOut (l : List Nat) : String := if l.isEmpty then "-" else ",".intercalate (l.map toString)
+def credOut : Option Cred → String
+  | none => "-"
+  | some c => c.certAlg ++ ":" ++ toString c.keyBits ++ ":" ++ dash c.curve
+def sideOut : Side → String
+  | .client => "client"
+  | .server => "server"
+
+def outcomeOut : Outcome Params → String
+  | .alert s d => "alert " ++ sideOut s ++ " " ++ d
+  | .abort s d => "abort " ++ sideOut s ++ " " ++ d
+  | .ok p =>
+    "ok v=" ++ toString p.version ++ " suite=" ++ toString p.suite ++ " group=" ++ toString p.group ++
+    " dh=" ++ toString p.dhBits ++ " sig=" ++ toString p.sigScheme ++ " etm=" ++ b01 p.etm ++
+    " ems=" ++ b01 p.ems ++ " alpn=" ++ dash p.alpn ++ " sni=" ++ dash p.serverName ++
+    " cs=" ++ toString p.cSend ++ " cr=" ++ toString p.cRecv ++ " ss=" ++ toString p.sSend ++
+    " sr=" ++ toString p.sRecv ++ " scert=" ++ credOut p.serverCert ++ " ccert=" ++ credOut p.clientCert ++
+    " csig=" ++ toString p.clientSig ++ " psk=" ++ (match p.psk with | some i => toString i | none => "-") ++
+    " hrr=" ++ b01 p.hrr
+
+def offerOut (o : Offer) : String :=
+  "cv=" ++ toString o.clientVersion ++ " suites=" ++ natsOut o.suites ++ " etm=" ++ b01 o.etm ++
+  " ems=" ++ b01 o.ems ++ " sigalgs=" ++ (match o.sigAlgs with | some l => natsOut l | none => "none") ++
+  " versions=" ++ (match o.supportedVersions with | some l => natsOut l | none => "none") ++
+  " shares=" ++ natsOut o.keyShares ++
+  " groups=" ++ (match o.groups with | some l => natsOut l | none => "none") ++
+  " rsl=" ++ toString o.recordSizeLimit ++ " psk=" ++ toString o.pskIds.length
+
+def handle : List String → Option String
+  | ["neg", cs, ss, cc, sc] => do
+    let cs ← parseSettings cs
+    let ss ← parseSettings ss
+    let cc ← parseClientCfg cc
+    let sc ← parseServerCfg sc
+    some (outcomeOut (negotiate cs ss cc sc))
+  | ["views", cs, ss, cc, sc] => do
+    let cs ← parseSettings cs
+    let ss ← parseSettings ss
+    let cc ← parseClientCfg cc
+    let sc ← parseServerCfg sc
+    let o := clientOffer cs cc
+    match serverSelect ss sc o with
+    | .ok sel =>
+      let K : KeySched := { master := fun _ _ _ _ _ _ _ => [], derive := fun _ _ _ _ => [], exportKm := fun _ _ _ _ _ _ _ => [] }
+      let t : Transcript := { offer := o, selection := sel, clientRandom := [], serverRandom := [], messages := []
+                              serverChain := if sc.cred.isSome then [[1]] else []
+                              clientChain := if cc.cred.isSome then [[2]] else [] }
+      let c := clientView K cs t []
+      let s := serverView K ss t []
+      let one (n : String) (v : SessionView) : String :=
+        n ++ ".v=" ++ toString v.version ++ " " ++ n ++ ".suite=" ++ toString v.suite ++ " " ++
+        n ++ ".etm=" ++ b01 v.etm ++ " " ++ n ++ ".ems=" ++ b01 v.ems ++ " " ++ n ++ ".alpn=" ++ dash v.alpn ++ " " ++
+        n ++ ".sni=" ++ dash v.serverName ++ " " ++ n ++ ".send=" ++ toString v.sendLimit ++ " " ++
+        n ++ ".recv=" ++ toString v.recvLimit ++ " " ++ n ++ ".schain=" ++ b01 (!v.serverChain.isEmpty) ++ " " ++
+        n ++ ".cchain=" ++ b01 (!v.clientChain.isEmpty)
+      some (one "c" c ++ " " ++ one "s" s)
+    | _ => some "no-selection"
+  | ["offer", cs, cc] => do
+    let cs ← parseSettings cs
+    let cc ← parseClientCfg cc
+    some (offerOut (clientOffer cs cc))
+  | ["filter", st, v, suites] => do
+    let st ← parseSettings st
+    some (natsOut (filterSuites (← natList suites) st (← v.toNat?)))
+  | ["sigs", st, priv, cred, v] => do
+    let st ← parseSettings st
+    let pb ← (if priv == "-" then some none else priv.toNat?.map some)
+    some (natsOut (sigHashesToList st pb (← parseCred cred) (← v.toNat?)))
+  | _ => none
+
+def main : IO Unit := protoMain handle
